@@ -320,6 +320,14 @@ fn shard(seed: u64, shard: u64, n: u64) -> Tally {
             if let Some(v) = mon_provider_args(&case, &rec, &j) {
                 t.violate(v);
             }
+            // the scope checks live in the authenticator: its own route must decide as the entry point does
+            if i % 4 == 0 {
+                if let Some(v) = crate::mon::mon_direct_route(&case, &rec) {
+                    t.violate(v);
+                } else {
+                    t.count("direct_route_agrees");
+                }
+            }
             if rec.calls() > 0 {
                 t.count("provider_calls_checked");
             }
